@@ -78,6 +78,12 @@ ObsInstant(o) == FieldsInstant(SubSeq(o.rfc, 1, 7), o.rfc[8])
 ObsLocal(o) == FieldsLocal(SubSeq(o.rfc, 1, 7))
 Near(x, inst, win) == ZEq(x, inst) \/ (win = 1 /\ ZEq(x, ZAdd(inst, ZOne)))
 ObsIsInstant(o, inst, win) == ObsWellFormed(o) /\ Near(ObsInstant(o), inst, win)
+\* A reply in a named zone shows its UTC offset rounded to minutes (RFC 3339 has no seconds there), but local mean
+\* times have seconds (US/Pacific before 1883 is -7:52:58): the reply then fixes its instant only to +-30 s.
+\* Exact agreement, or a difference of whole seconds of at most 30 s.
+Thirty == ZMul(ZFromInt(30), ZBillion)
+OffsetSlack(dz) == NIsZero(NMod(dz.mag, NBillion)) /\ NLe(dz.mag, Thirty.mag)
+ObsIsInstantInZone(o, inst) == ObsWellFormed(o) /\ (ZEq(ObsInstant(o), inst) \/ OffsetSlack(ZSub(ObsInstant(o), inst)))
 
 \* a whole-query literal is judged relationally: every reading the documented patterns allow is admissible
 LitVerdict(toks, o, i) ==
@@ -110,7 +116,8 @@ ConvVerdict(qa, o, i) ==
   ELSE IF qa.conv.c = "offset" /\ ~OffsetValid(qa.conv.secs) THEN
        (IF o.t = "err" THEN TRUE ELSE PrintT(<<"REJECT", i, "offset of 24 h or more must be refused">>))
   ELSE IF r.soft /\ o.t = "err" THEN PrintT(<<"NOTE", i, "soft">>)
-  ELSE IF ObsIsInstant(o, r.v.inst, 0) /\ (qa.conv.c = "offset" => o.rfc[8] = qa.conv.secs) THEN TRUE
+  ELSE IF qa.conv.c = "offset" /\ ObsIsInstant(o, r.v.inst, 0) /\ o.rfc[8] = qa.conv.secs THEN TRUE
+  ELSE IF qa.conv.c = "tz" /\ ObsIsInstantInZone(o, r.v.inst) THEN TRUE
   ELSE PrintT(<<"REJECT", i, ToJson(r.v)>>)
 
 Verdict(ev, i) ==
